@@ -217,6 +217,17 @@ func driveSys(cfg *hx.RunCfg) error {
 			be.drain()
 			got, err := u.do(rg.req, 30*time.Second)
 			if err != nil {
+				// no answer at all: once more on a fresh connection, reported when it fails again
+				st.dist["exchange-retried"]++
+				u.close()
+				time.Sleep(50 * time.Millisecond)
+				be.drain()
+				if u, err = dialUser(vaddr, localIP); err != nil {
+					return err
+				}
+				got, err = u.do(rg.req, 30*time.Second)
+			}
+			if err != nil {
 				st.fail("impl:sys-exchange-failed", fmt.Sprintf("%s: %v (%s %s)", sp.name, err, rg.req.method, rg.req.target), rg.req.target)
 				break
 			}
@@ -276,12 +287,18 @@ func driveSys(cfg *hx.RunCfg) error {
 			}
 			_ = tc.SetDeadline(time.Time{})
 			tu := newUserConn(tc)
-			for k := 0; k < 2; k++ {
+			var answered []string
+			for k := 0; k < 3; k++ {
 				rg := genRequest(g, sp.rt, cfg.Tier, false)
 				for rg.absform || strings.ToLower(strings.TrimSuffix(strings.Split(rg.hostSent, ":")[0], ".")) != sp.rt.domain {
 					rg = genRequest(g, sp.rt, cfg.Tier, false)
 				}
 				resp := genResponse(g, rg.req.method, cfg.Tier, false)
+				if resp.framing == "close" {
+					// this section measures keep-alive on one connection (CKeep); close-delimited answers are
+					// exercised by the other sections, where a lost exchange is repeated once
+					resp.framing = "cl"
+				}
 				be.script(resp)
 				be.drain()
 				got, err := tu.do(rg.req, 20*time.Second)
@@ -289,19 +306,23 @@ func driveSys(cfg *hx.RunCfg) error {
 					if os.Getenv("C02_DEBUG") != "" {
 						fmt.Fprintf(os.Stderr, "TLS FAIL %s k=%d err=%v req=%s %s framing=%s len=%d resp=%d %s %d\n", sp.name, k, err, rg.req.method, rg.req.target, rg.req.framing, len(rg.req.body), resp.status, resp.framing, len(resp.body))
 					}
+					answered = append(answered, "false")
 					if sp.comp && k > 0 {
-						// FINDING (reported, see design/C02.md F-C02c): with useCompression a plugin's HTTP server loses
-						// the connection after its first request (net/http aborts its background read with a read
+						// KNOWN FINDING (design/C02.md F-C02c): with useCompression a plugin's HTTP server loses the
+						// connection after its first request (net/http interrupts its background read with a read
 						// deadline; the snappy reader keeps that error for ever)
-						st.dist["finding:plugin+compression:second-request-on-connection-fails"]++
+						st.dist["finding:plugin+compression:keepalive-second-request"]++
+						if st.dist["finding:plugin+compression:keepalive-second-request"] == 1 {
+							st.fail("C02:plugin+compression:keepalive-second-request",
+								"https proxy + client plugin "+sp.plugin+" + transport.useCompression: request #"+fmt.Sprint(k+1)+" on one keep-alive connection gets no answer ("+err.Error()+")",
+								"driver sys, proxy "+sp.name+": "+rg.req.method+" "+rg.req.target)
+						}
 						break
 					}
 					st.fail("impl:sys-exchange-failed", fmt.Sprintf("%s: %v", sp.name, err), rg.req.target)
 					break
 				}
-				if sp.comp && k > 0 {
-					st.dist["finding:plugin+compression:second-request-on-connection-fails:not-reproduced"]++
-				}
+				answered = append(answered, "true")
 				seen := be.waitSeen(5 * time.Second)
 				if seen == nil {
 					st.fail("impl:sys-backend-saw-nothing", sp.name, rg.req.target)
@@ -316,6 +337,7 @@ func driveSys(cfg *hx.RunCfg) error {
 				}
 			}
 			tu.close()
+			cases = append(cases, fmt.Sprintf("CKeep %s %s", hx.Bool(sp.comp), hx.List(answered)))
 		}
 	}
 
@@ -383,14 +405,8 @@ func driveSys(cfg *hx.RunCfg) error {
 		u.close()
 		label := map[int]string{1: "upgrade", 2: "connect"}[t.kind]
 		if t.early {
-			// bytes sent in the same segment as the CONNECT head, before the backend answered: recorded, not
-			// part of the claim (a client has to wait for the 2xx before it may use the tunnel)
-			if accepted && bodyID(upRecv) == bodyID(up) {
-				st.dist["tunnel:connect-early-data:delivered"]++
-			} else {
-				st.dist["tunnel:connect-early-data:lost"]++
-			}
-			continue
+			// bytes sent in the same segment as the CONNECT head (forwarded since the repair eea1e0f)
+			st.dist["tunnel:connect-early-data"]++
 		}
 		cases = append(cases, fmt.Sprintf("CTunnel %d %s %s %s %s %s", t.kind, hx.Bool(accepted), hx.HxS(bodyID(up)), hx.HxS(bodyID(upRecv)), hx.HxS(bodyID(down)), hx.HxS(bodyID(downRecv))))
 		st.dist["tunnel:"+label]++
@@ -406,7 +422,8 @@ func driveSys(cfg *hx.RunCfg) error {
 		Cases:   cases,
 		Tail: "Definition M := Eval vm_compute in mismatches check_case cases.\nPrint M.\n" +
 			counter("NSYSFWD", "is_fwd") + counter("NSYSCHAIN", "is_chain") + counter("NSYSHS2H", "(is_plug HrHS2H)") + counter("NSYSHS2HS", "(is_plug HrHS2HS)") +
-			counter("NSYSERR504", "is_err504") + counter("NSYSERR404", "is_err404") + counter("NUPGRADE", "(is_tunnel 1)") + counter("NCONNECT", "(is_tunnel 2)"),
+			counter("NSYSERR504", "is_err504") + counter("NSYSERR404", "is_err404") + counter("NUPGRADE", "(is_tunnel 1)") + counter("NCONNECT", "(is_tunnel 2)") +
+			counter("NKEEPPLAIN", "(is_keep false)") + counter("NKEEPCOMP", "(is_keep true)") + counter("NKEEPLOST", "keep_lost"),
 	}
 	if err := cf.Write(cfg.Out); err != nil {
 		return err
